@@ -129,6 +129,13 @@ def replay_conc(ob, claim_name, values, tier="quick"):
 
 
 def _worker(modname, obname, tier, outpath):
+    import contextlib
+    import io
+    with contextlib.redirect_stdout(io.StringIO()):
+        _worker_inner(modname, obname, tier, outpath)
+
+
+def _worker_inner(modname, obname, tier, outpath):
     try:
         mod = importlib.import_module(modname)
         ob = [o for o in mod.OBLIGATIONS if o.name == obname][0]
